@@ -12,14 +12,46 @@ import z3
 from pyvc.core import ClassDecl, FnDecl
 from pyvc.engine import Engine, Target
 from pyvc.sem_stmt import LoopSpec
-from pyvc.symmodel import SymEngine, TBeta
+from pyvc.symmodel import ParserMixin, SymEngine, TBeta, TTokVal, VFnTable, VTokVal
 from pyvc.types import *  # noqa: F401,F403
 from pyvc.types import BOOL, INT, STR, TOpt, TRef, TSeq
 
 CORE = "onnx_ir._core"
 SS = "onnx_ir._symbolic_shapes"
 LEVEL = "proof"
-ENGINE_CLASS = SymEngine
+REPLAY_UNDISCHARGED = True      # an obligation that fails to discharge is replayed by the directed bounded search
+
+
+class C16Engine(ParserMixin, SymEngine):
+    def __init__(self, prop):
+        super().__init__(prop)
+        self.init_parser_model()
+
+    def sp_tokat(self, node, p):
+        """tokat(k): the k-th token of the stream as the Python value get_token() returns (None at/after the end)."""
+        from pyvc.types import VOpt, VTup, VStr
+        g = self.grammar
+
+        def k(q, v):
+            i = v.z
+            return [(q, VOpt(z3.Or(i < 0, i >= g.NT), VTup([VStr(g.tok_kind(i)), VTokVal(g.tok_isint(i), g.tok_s(i), g.tok_n(i))])))]
+        return self.bind(self.ev(node.args[0], p), k)
+
+    def sp_lexerr(self, node, p):
+        from pyvc.types import VBool
+        return [(p, VBool(self.grammar.LEXERR))]
+
+    def sp_NT(self, node, p):
+        from pyvc.types import VInt
+        return [(p, VInt(self.grammar.NT))]
+
+    def sp_is_tok(self, node, p):
+        """is_tok(k, kind): token k exists and has this kind."""
+        from pyvc.types import VBool
+        return self.bind(self.ev_list(node.args, p), lambda q, vs: [(q, VBool(self.grammar.K(vs[0].z, node.args[1].value)))])
+
+
+ENGINE_CLASS = C16Engine
 TRUSTED = ["SymPy algebra (pyvc/symmodel.py): each SymPy constructor used denotes the standard arithmetic operation",
            "parse_symbolic_expression(text) is a deterministic function of text (its own contract is proved separately)"]
 NOT_DECIDED = ["SymbolicDim.evaluate / simplify / free_symbols, Shape.evaluate / simplify, str(expr) (SymPy printer) and therefore "
@@ -101,3 +133,182 @@ def build(eng, tier):
                      f"forall(lambda b=beta: den(result._expr_cache, b) == {formula.replace('x', X)}))",
                      "self._value == old(self._value)"],
             raises={"ValueError": []}))
+    build_parser(eng, tier)
+
+
+# ------------------------------------------------------------------------------------------------------------------
+# The parser: one modular contract per _parse_* function against the reference grammar (contracts/c16_grammar.py)
+
+REQUIRED_FUNCTIONS = {"max": "Max", "Max": "Max", "min": "Min", "Min": "Min", "floor": "floor", "sqrt": "sqrt", "mod": "Mod", "Mod": "Mod"}
+
+PSPEC = '''
+def pos(s):
+    return s.tokenizer.g_idx - 1
+
+def P_ok(s):
+    return nonnull(s.tokenizer) and s.tokenizer.g_idx >= 1 and s.current_token == tokat(s.tokenizer.g_idx - 1)
+'''
+
+
+def read_function_table():
+    """_ALLOWED_FUNCTIONS as written in the real source: [(name, sympy function name)]."""
+    import ast
+    from pyvc import extract
+    _, tree = extract.load_module(SS)
+    for n in tree.body:
+        tgt = n.target if isinstance(n, ast.AnnAssign) else (n.targets[0] if isinstance(n, ast.Assign) else None)
+        if isinstance(tgt, ast.Name) and tgt.id == "_ALLOWED_FUNCTIONS" and isinstance(n.value, ast.Dict):
+            out = []
+            for k, v in zip(n.value.keys, n.value.values):
+                if not (isinstance(k, ast.Constant) and isinstance(v, ast.Attribute) and isinstance(v.value, ast.Name) and v.value.id == "sympy"):
+                    raise ValueError("unexpected entry in _ALLOWED_FUNCTIONS: " + ast.unparse(k))
+                out.append((k.value, v.attr))
+            return out
+    raise ValueError("_ALLOWED_FUNCTIONS not found")
+
+
+def build_parser(eng, tier):
+    from pyvc.core import Exc
+    from pyvc.types import TTup, VInt, VNone, VOpt, VStr, VTup
+    from .c16_grammar import Grammar
+    table = read_function_table()
+    g = eng.grammar = Grammar(eng, table)
+    # the function table must give every documented function its standard meaning (static obligation on the real dict)
+    have = dict(table)
+    for k, fn in REQUIRED_FUNCTIONS.items():
+        eng.add_static(f"_ALLOWED_FUNCTIONS/{k}", have.get(k) == fn, f"function table maps {k!r} to sympy.{have.get(k)} (documented meaning: sympy.{fn})",
+                       backend="table comparison on the real source")
+    eng.global_overrides[(SS, "_ALLOWED_FUNCTIONS")] = VFnTable(table)
+    TOK = TOpt(TTup([STR, TTokVal()]))
+    eng.declare_class_from_source(SS, "_ExpressionTokenizer", fields={"text": STR, "pos": INT, "length": INT, "g_idx": INT}, bases=[])
+    eng.declare_class_from_source(SS, "_ExpressionParser", fields={"tokenizer": TRef("_ExpressionTokenizer"), "text": STR, "current_token": TOK}, bases=[])
+    eng.spec_fn(PSPEC)
+
+    def get_token(e, p, args, kwargs, node):
+        """Contract of the tokenizer as the parser sees it: the k-th call returns the k-th token of the stream, then
+        None for ever - or raises ValueError at the first character that starts no token (LEXERR)."""
+        tk = args[0]
+        idx = e.read_field(p, tk, "g_idx")
+        outs = []
+        pin, pout = e.fork(p, z3.And(idx.z >= 0, idx.z < g.NT), "tok")
+        if pin is not None:
+            e.write_field(pin, tk, "g_idx", VInt(idx.z + 1))
+            i = idx.z
+            outs.append((pin, VOpt(False, VTup([VStr(g.tok_kind(i)), VTokVal(g.tok_isint(i), g.tok_s(i), g.tok_n(i))]))))
+        if pout is not None:
+            perr, pend = e.fork(pout, g.LEXERR, "lexerr")
+            if perr is not None:
+                outs.append((perr, Exc("ValueError", f"L{node.lineno}:get_token")))
+            if pend is not None:
+                e.write_field(pend, tk, "g_idx", VInt(idx.z + 1))
+                outs.append((pend, VNone()))
+        return outs
+    eng.functions[f"{SS}._ExpressionTokenizer.get_token"] = FnDecl(f"{SS}._ExpressionTokenizer.get_token", "builtin", impl=get_token)
+    MOD = ["_ExpressionParser.current_token", "_ExpressionTokenizer.g_idx"]
+    FUNCS = {"_parse_expr": "expr", "_parse_term": "term", "_parse_unary": "unary", "_parse_power": "power", "_parse_primary": "primary"}
+
+    def contract(X, at="old(pos(self))", pre=()):
+        return dict(requires=["P_ok(self)"] + list(pre),
+                    ensures=["P_ok(self)", f"{X}_ok({at})", f"result is {X}_e({at})", "nonnull(result)", f"pos(self) == {X}_n({at})",
+                             "self.tokenizer is old(self.tokenizer)"],
+                    raises={"ValueError": [f"not {X}_ok({at}) or lexerr()"]})
+    for meth, X in FUNCS.items():
+        c = contract(X)
+        eng.functions[f"{SS}._ExpressionParser.{meth}"] = FnDecl(f"{SS}._ExpressionParser.{meth}", "contract", SS, f"_ExpressionParser.{meth}",
+                                                                  ret=TRef("SymExpr"), modifies=MOD, **c)
+    callpre = ["pos(self) >= 1", "is_tok(pos(self) - 1, 'IDENT')", "name == tokat(pos(self) - 1)[1]", "is_tok(pos(self), 'LPAREN')"]
+    cc = contract("call", at="old(pos(self)) - 1", pre=callpre)
+    eng.functions[f"{SS}._ExpressionParser._parse_function_call"] = FnDecl(
+        f"{SS}._ExpressionParser._parse_function_call", "contract", SS, "_ExpressionParser._parse_function_call",
+        ret=TRef("SymExpr"), modifies=MOD, **cc)
+    LEXPR = eng.LIST(TRef("SymExpr"))
+    loops = {
+        "_parse_expr": {0: LoopSpec(invariant=["P_ok(self)", "self.tokenizer is old(self.tokenizer)", "U_efold(pos(self), left)", "nonnull(left)",
+                                               "efold_ok(pos(self), left) == old(expr_ok(pos(self)))",
+                                               "implies(old(expr_ok(pos(self))), efold_e(pos(self), left) is old(expr_e(pos(self))) and "
+                                               "efold_n(pos(self), left) == old(expr_n(pos(self))))"], modifies=MOD)},
+        "_parse_term": {0: LoopSpec(invariant=["P_ok(self)", "self.tokenizer is old(self.tokenizer)", "U_tfold(pos(self), left)", "nonnull(left)",
+                                               "tfold_ok(pos(self), left) == old(term_ok(pos(self)))",
+                                               "implies(old(term_ok(pos(self))), tfold_e(pos(self), left) is old(term_e(pos(self))) and "
+                                               "tfold_n(pos(self), left) == old(term_n(pos(self))))"], modifies=MOD)},
+    }
+    for meth, X in FUNCS.items():
+        c = contract(X)
+        eng.add_target(Target(f"_ExpressionParser.{meth}", mod=SS, qual=f"_ExpressionParser.{meth}", self_cls="_ExpressionParser",
+                              params={}, requires=c["requires"] + [f"U_{X}(pos(self))"], ensures=c["ensures"], raises=c["raises"],
+                              loops=loops.get(meth, {}), modifies=MOD + ["$alloc"], assert_mode="raise"))
+    # the function call: IDENT at pos-1, '(' at pos; the argument list is a left fold over ',' separated expressions
+    eng.add_target(Target("_ExpressionParser._parse_function_call", mod=SS, qual="_ExpressionParser._parse_function_call",
+        self_cls="_ExpressionParser", params={"name": TTokVal()},
+        requires=cc["requires"] + ["U_call(pos(self) - 1)"], ensures=cc["ensures"], raises=cc["raises"],
+        local_types={"args": LEXPR},
+        loops={0: LoopSpec(invariant=[
+            "P_ok(self)", "self.tokenizer is old(self.tokenizer)", "U_afold(pos(self), Seq(args))", "len(args) >= 1",
+            "forall(lambda k=int: implies(0 <= k and k < len(args), nonnull(args[k])))",
+            "afold_ok(pos(self), Seq(args)) == at_loop(afold_ok(pos(self), Seq(args)))",
+            "implies(at_loop(afold_ok(pos(self), Seq(args))), afold_n(pos(self), Seq(args)) == at_loop(afold_n(pos(self), Seq(args))) and "
+            "afold_len(pos(self), Seq(args)) == at_loop(afold_len(pos(self), Seq(args))) and "
+            "afold_arr(pos(self), Seq(args)) == at_loop(afold_arr(pos(self), Seq(args))))"],
+            modifies=MOD + [f"{LEXPR.cls}.$v"])},
+        modifies=MOD + ["$alloc", f"{LEXPR.cls}.$v"], assert_mode="raise"))
+    # construction: the tokenizer starts at token 0; the parser reads the first token
+    def tokenizer_init(e, p, args, kwargs, node):
+        tk = args[0]
+        e.write_field(p, tk, "text", args[1])
+        e.write_field(p, tk, "g_idx", VInt(0))
+        return [(p, VNone())]
+    eng.functions[f"{SS}._ExpressionTokenizer.__init__"] = FnDecl(f"{SS}._ExpressionTokenizer.__init__", "builtin", impl=tokenizer_init)
+    eng.add_target(Target("_ExpressionParser.__init__", mod=SS, qual="_ExpressionParser.__init__", self_cls="_ExpressionParser",
+        params={"text": STR}, requires=[], ensures=["P_ok(self)", "pos(self) == 0", "fresh(self.tokenizer)"],
+        raises={"ValueError": ["NT() == 0 and lexerr()"]}, assert_mode="raise"))
+    top_ok = "expr_ok(0) and expr_n(0) >= NT()"
+    eng.add_target(Target("_ExpressionParser.parse", mod=SS, qual="_ExpressionParser.parse", self_cls="_ExpressionParser",
+        params={}, requires=["P_ok(self)", "pos(self) == 0"],
+        ensures=[top_ok, "result is expr_e(0)", "nonnull(result)"],     # a phrase of `expr` that uses every token
+        raises={"ValueError": [f"not ({top_ok}) or lexerr()"]}, modifies=MOD + ["$alloc"], assert_mode="raise"))
+    # the entry point: identifiers take a shortcut (same meaning as the one-token stream IDENT(value): lexical fact, bounded);
+    # everything else is tokenized and parsed by the grammar
+    isident = z3.Function("str_isidentifier", STR.sorts()[0], z3.BoolSort())
+    eng.spec_ufuncs["isidentifier"] = (isident, BOOL)
+    eng.spec_ufuncs["sym_of"] = (eng.ctor["sym"], TRef("SymExpr"))
+    orig_sm = eng.str_method
+
+    def str_method(p, recv, name, args, kwargs, node):
+        if name == "isidentifier":
+            from pyvc.types import VBool
+            return [(p, VBool(isident(recv.z)))]
+        return orig_sm(p, recv, name, args, kwargs, node)
+    eng.str_method = str_method
+    # inside this target the parser methods are used through their contracts; __init__ and parse are proved above
+    eng.functions[f"{SS}._ExpressionParser.__init__"] = FnDecl(
+        f"{SS}._ExpressionParser.__init__", "contract", SS, "_ExpressionParser.__init__", requires=[],
+        ensures=["P_ok(self)", "pos(self) == 0"], raises={"ValueError": ["NT() == 0 and lexerr()"]},
+        modifies=MOD + ["_ExpressionParser.tokenizer", "_ExpressionParser.text", "$alloc"])
+    eng.functions[f"{SS}._ExpressionParser.parse"] = FnDecl(
+        f"{SS}._ExpressionParser.parse", "contract", SS, "_ExpressionParser.parse", requires=["P_ok(self)", "pos(self) == 0"],
+        ensures=[top_ok, "result is expr_e(0)", "nonnull(result)"], raises={"ValueError": [f"not ({top_ok}) or lexerr()"]},
+        ret=TRef("SymExpr"), modifies=MOD + ["$alloc"])
+    eng.add_target(Target("parse_symbolic_expression", mod=SS, qual="parse_symbolic_expression", params={"value": STR}, requires=[],
+        ensures=["nonnull(result)", "implies(isidentifier(value), result is sym_of(value))",
+                 f"implies(not isidentifier(value), {top_ok} and result is expr_e(0))"],
+        raises={"ValueError": [f"not isidentifier(value) and (not ({top_ok}) or lexerr())"]}, assert_mode="raise"))
+
+
+def make_replay(ob, eng):
+    """A refuted/undischarged obligation is replayed on the real code by the directed bounded search of the same
+    contract: operator obligations -> expression trees using that operator; parser obligations -> grammar strings."""
+    import os
+    here = os.path.dirname(os.path.dirname(os.path.abspath(__file__)))
+    script = os.path.join(here, "rt", "bounded_symbolic.py")
+    tname = ob.name.split("/")[1]
+    focus = {"__add__": " + ", "__radd__": " + ", "__sub__": " - ", "__rsub__": " - ", "__mul__": " * ", "__rmul__": " * ",
+             "__floordiv__": " // ", "__truediv__": " / ", "__rtruediv__": " / ", "__mod__": " % ", "__neg__": "neg(",
+             "__floor__": "floor(", "__ceil__": "ceil(", "__trunc__": "trunc("}
+    args = ["--only", "B"]
+    for k, f in focus.items():
+        if f"SymbolicDim.{k}" in tname:
+            args = ["--only", "A", "--focus", f]
+    return {"kind": "script",
+            "script": "import subprocess, sys, json\nr = subprocess.run([sys.executable, %r] + %r, capture_output=True, text=True)\n"
+                      "d = json.loads(r.stdout.strip().splitlines()[-1])\nVIOLATED = d['status'] == 'violation'\n"
+                      "DETAIL = '\\n'.join(d.get('failures', []))\n" % (script, args)}
